@@ -119,6 +119,15 @@ def run(repo, rep, tier):
     # XML mode (no newline rewriting) follows the XML declaration, which is
     # consulted before the meta element
     L.borrow(repo, rep, "R03.5", "C17", c17._order, ("decl-second",))
+    # a statement-free attribute with a prefix stays as written only if the
+    # prefix means what the enclosing elements declared: declarations of an
+    # empty element end with it (C18 owns the namespace-stack rules)
+    from . import c18, c07
+    L.borrow(repo, rep, "R03.3", "C18", c18._nsstack, ("empty-tag",))
+    # the CR/CRLF rewrite is decided by the content type of THIS body
+    L.borrow(repo, rep, "R03.5", "C07", c07._history_and_undoubling,
+             ("write-history-free",))
+    L.state_rule(repo, rep)
 
 
 def _totality(repo, rep):
